@@ -1,0 +1,11 @@
+//go:build verif
+
+package redis
+
+import "net"
+
+// VerifServeConn serves one caller-supplied connection synchronously through
+// the real connection loop (verification builds only).
+func (server *Server) VerifServeConn(conn net.Conn) error {
+	return server.receive(conn, nil)
+}
